@@ -120,8 +120,8 @@ theorem findScope_isSome (s : State) (id : ScopeId) : (findScope s id).isSome = 
 theorem hasScope_iff {s : State} {d : ScopeId} : hasScope s d = true ↔ ∃ e ∈ s.scopes, e.id = d := by
   simp [hasScope, List.any_eq_true]
 
-theorem hasScope_putScope (s : State) (id : ScopeId) (owners : List Addr) (d : ScopeId) :
-    hasScope (putScope s id owners) d = (decide (id = d) || hasScope s d) := by
+theorem hasScope_putScope (s : State) (id : ScopeId) (owners : List Party) (rollup : Bool) (d : ScopeId) :
+    hasScope (putScope s id owners rollup) d = (decide (id = d) || hasScope s d) := by
   rw [Bool.eq_iff_iff, Bool.or_eq_true, hasScope_iff, hasScope_iff]
   simp only [putScope, List.mem_cons, List.mem_filter, decide_eq_true_eq]
   constructor
@@ -129,9 +129,9 @@ theorem hasScope_putScope (s : State) (id : ScopeId) (owners : List Addr) (d : S
     · subst he; exact Or.inl hd
     · exact Or.inr ⟨e, he, hd⟩
   · rintro (h | ⟨e, he, hd⟩)
-    · exact ⟨⟨id, owners⟩, Or.inl rfl, h⟩
+    · exact ⟨⟨id, owners, rollup⟩, Or.inl rfl, h⟩
     · by_cases hc : id = d
-      · exact ⟨⟨id, owners⟩, Or.inl rfl, hc⟩
+      · exact ⟨⟨id, owners, rollup⟩, Or.inl rfl, hc⟩
       · refine ⟨e, Or.inr ⟨he, ?_⟩, hd⟩
         simp only [ne_eq]
         rw [hd]; exact fun x => hc x.symm
